@@ -360,7 +360,8 @@ package hermes
 //@   requires roots: 0 <= g.WURZ && g.WURZ <= g.N
 //@   requires soil: forall(k, 0, g.N, 0 < g.WMIN[k] && g.WMIN[k] < g.WNOR[k] && g.WNOR[k] <= g.W[k])
 //@   requires method: 1 <= g.ETMETH && g.ETMETH <= 5
-//@   requires[C08,C06] inputs: g.VERD[tag()] >= 0 && g.ETNULL[tag()] >= 0 && g.FKC >= 0 && g.FKB >= 0 && g.KCOA >= 0 && g.LAI >= 0
+//@   requires[C08,C06] inputs: g.VERD[tag()] >= 0 && g.ETNULL[tag()] >= 0 && g.FKC >= 0 && g.FKB >= 0 && g.KCOA >= 0
+//@   requires[C08,C06] leafarea: g.LAI >= 0
 //@   requires[C08,C06] haude: forall(m, 0, 12, g.FKF[m] >= 0 && g.FKU[m] >= 0)
 //@   requires[C08,C06] sun: g.SUND[tag()] >= 0
 //@   requires[C08,C06] rootdensity: forall(k, 0, 21, g.WUDICH[k] >= 0)
@@ -497,6 +498,13 @@ package hermes
 //@   return-ensures errorpath: !isnil(result0)
 //@   serves C01, C11
 //@   opaque Soiltemp PhytoOut Nitro
+// C08: the leaf area index stays non-negative through the crop and nitrogen routines of the day (partial use of their contracts)
+//@   serves C08
+//@   requires[C08] leafarea: g.LAI >= 0
+//@   establishes PhytoOut: leafarea
+//@   relies PhytoOut: leafarea
+//@   relies Nitro: leafarea
+//@   ensures[C08] leafarea: g.LAI >= 0
 //@   ghost var wsum real
 //@   ghost var ncalls int
 //@   at call Water: ghost wsum = wsum + arg0
@@ -527,6 +535,7 @@ package hermes
 //@   invariant sum: wsum == pre(wsum) + real(\i-1)*WDT
 //@   invariant calls: ncalls == pre(ncalls) + \i - 1
 //@   invariant frame: g.N == pre(g.N) && g.DZ.Num == 10 && g.DT.Num == 1 && g.OUTN == pre(g.OUTN) && g.DRAIFAK == pre(g.DRAIFAK)
+//@   invariant[C08] leafarea: g.LAI >= 0
 //@   decreases[C11] nsteps - \i + 1
 
 // ---------------------------------------------------------------------------
@@ -1288,6 +1297,9 @@ package hermes
 // organ masses: the first three organs stay positive, the others non-negative, leaf area index non-negative
 //@ region PhytoOut#organs from "for i := 0; i < g.NRKOM; i++ { if g.SUM[g.INTWICK.Index]/g.TSUM[g.INTWICK.Index] > 1 {" to "for i := 0; i < g.NRKOM; i++ { if g.SUM[g.INTWICK.Index]/g.TSUM[g.INTWICK.Index] > 1 {"
 //@   serves C09
+// the leaf area index handed to the evapotranspiration routine on the NEXT day (Evatra runs before PhytoOut in the day
+// loop) is what this loop leaves behind: its floor is also what C08's split of potential ET by leaf area relies on
+//@   serves C08
 //@   requires organs: 0 <= g.NRKOM && g.NRKOM <= 5
 //@   requires stage: 1 <= g.INTWICK.Index && g.INTWICK.Index < 10
 //@   requires lai: g.LAI >= 0
@@ -1428,6 +1440,11 @@ package hermes
 // returned an error; a failed run is reported on the log channel, never by aborting the process (when a log channel exists).
 //@ region HermesSession.Run#epilogue from "result := &RunReturn{" to "if out != nil {"
 //@   serves C11
+// sequential isolation: Run (its closure and everything they statically call in the repository) mutates no package-level
+// variable - nothing a run computes can reach a later run of the session except through the session's file pool
+// (FilePool.Get, under contract) and the file system. Decided on the syntactic call graph (calls through function values
+// and interfaces are not followed: the three converter closures of readConfig capture only their arguments).
+//@   safety[C11] noglobals
 //@   ghost var sent int = 0
 //@   ghost var sentLog int = 0
 //@   ghost var sentID string
@@ -1969,11 +1986,12 @@ package hermes
 //@   requires consts: consts()
 //@   requires calendar: caldr()
 //@   requires backup: backups()
+//@   requires[C08,C06] leafarea: g.LAI >= 0
 //@   uses HermesSession.Run$1#calendar: step day
 //@   uses HermesSession.Run$1#gwchange: layers backup
 //@   uses HermesSession.Run$1#irrigation: day
 //@   uses HermesSession.Run$1#deposition: units
-//@   uses HermesSession.Run$1#substeps: layers units day outn drain
+//@   uses HermesSession.Run$1#substeps: layers units day outn drain leafarea
 //@   uses HermesSession.Run$1#pereset: layers
 //@   uses HermesSession.Run$1#measured: -
 // C10 (in full): what Nitro has put into the fertiliser pools on a day is still there at the end of that day - nothing the
@@ -1984,7 +2002,7 @@ package hermes
 //@   after stmt "for SUBD := 1; SUBD <= int(STEPS); SUBD++ {": ghost nh4After = g.NH4Sum
 //@   before stmt "if ZEIT == g.ENDE {": assert[C10,C07] keptinfull: g.DSUMM == dsumAfter && g.NH4Sum == nh4After
 //@   uses HermesSession.Run$1#autoirr: day units
-//@   establishes Evatra: layers units day method
+//@   establishes Evatra: layers units day method leafarea
 //@   establishes Denitmo: day
 // the number of days of the year LoadYear has just loaded comes from the weather store (text layer): assumed once, here
 //@   after stmt "if g.TAG.Num == g.DT.Num {": assume yearlength: g.TAG.Index + 1 <= g.JTAG && g.JTAG <= 366
@@ -1994,6 +2012,7 @@ package hermes
 //@   invariant consts: consts()
 //@   invariant calendar: caldr()
 //@   invariant backup: backups()
+//@   invariant[C08,C06] leafarea: g.LAI >= 0
 
 // measured start values (Nmin sampling date): the state is overwritten by the measurement and the balance terms restart -
 // applied and dissolved fertiliser TOGETHER (a pool that restarts alone leaves more dissolved than applied); on every
@@ -2087,3 +2106,23 @@ package hermes
 //@   ensures begin: w1 == crpman[4:8] + SAT[4:]
 //@   ensures end: w2 == crpman[9:13] + SAT[4:]
 //@   ensures pending: g.SAAT[SLFINDindex] == 0
+
+// C09  the seasonal water-stress mean of the crop record (Nitro divides the sum by harvest - sowing): one call of PhytoOut
+// (= one day) contributes at most ONE sample of the day's transpiration ratio, which lies in [0,1] (Evatra/post:trrel...),
+// whatever stage changes happen inside the call; the sum restarts at sowing. Whole function, loops cut by their write sets.
+//@ func PhytoOut
+//@   serves C09
+//@   opaque CropOverwrite.OverwriteCropParameters vern ReadCropParamYml ReadCropParamClassic radia CalculateDayLenght
+//@   requires ratio: 0 <= g.TRREL && g.TRREL <= 1 && g.TRRELSUM >= 0
+// the leaf area index never leaves PhytoOut negative (the organ loop is used through its region contract)
+//@   serves C08
+//@   requires[C08,C09] leafarea: g.LAI >= 0
+//@   uses PhytoOut#organs: lai
+//@   ensures[C08,C09] leafarea: g.LAI >= 0
+//@   ensures[C09] onesample: g.TRRELSUM >= 0 && g.TRRELSUM <= old(g.TRRELSUM) + 1
+
+// Nitro (harvest, residues) never makes the leaf area index negative (it is reset to 0 at harvest)
+//@ func Nitro
+//@   serves C08, C09
+//@   opaque dueng mineral nmove KalenderDate Denitr Denitmo
+//@   ensures[C08,C09] leafarea: old(g.LAI) >= 0 ==> g.LAI >= 0
